@@ -376,11 +376,10 @@ def run_deletes(w, state0, plan):
         def get(i):
             if i not in loaded: loaded[i] = w.classes[w.ents[i]].get(id=w.pks[i])
             return loaded[i]
+        ident = {(w.classes[e].__name__, pk): i for i, (e, pk) in enumerate(zip(w.ents, w.pks))}
+        def mid(o): return ident.get((type(o).__name__, o.id))
         def deleted_now():
-            out = []
-            for o in list(cache.objects):
-                if isinstance(o, tuple(w.classes)) and o._status_ in DEL: out.append(o._vals_[type(o).tag] if o._vals_ and type(o).tag in o._vals_ else None)
-            return sorted(x for x in out if x is not None)
+            return sorted(mid(o) for o in list(cache.objects) if isinstance(o, tuple(w.classes)) and o._status_ in DEL)
         for st in plan:
             before = session_snapshot(w, cache)
             err = None; target_missing = False
@@ -402,7 +401,7 @@ def run_deletes(w, state0, plan):
                     if isinstance(v, core.SetData): bad = [x for x in v if x._status_ in DEL]
                     elif isinstance(v, core.Entity): bad = [v] if v._status_ in DEL else []
                     else: bad = []
-                    if bad: dangling.append([type(o).__name__, o._vals_.get(type(o).tag), attr.name])
+                    if bad: dangling.append([mid(o), attr.name, [mid(x) for x in bad]])
             steps.append({'err': err, 'missing': target_missing, 'dead': deleted_now(), 'diff': session_diff(before, after) if err else None,
                           'dangling': dangling})
         try: commit()
